@@ -411,44 +411,55 @@ func Validate(profile CertificateProfile, content CertificateContent) bool {
 		for i, j := 0, len(subject)-1; i < j; i, j = i+1, j-1 {
 			subject[i], subject[j] = subject[j], subject[i]
 		}
-		wantAttribute := 0
-		haveAttribute := 0
-		for {
-			if wantAttribute >= len(profile.SubjectAttributes.Attributes) ||
-				haveAttribute >= len(subject) {
-				break
-			}
-
-			currentAttribute := profile.SubjectAttributes.Attributes[wantAttribute].Attribute
-			wantAt, err := GetRdnAttributeOid(currentAttribute)
+		//resolve all profile attributes first
+		want := make([]asn1.ObjectIdentifier, len(profile.SubjectAttributes.Attributes))
+		for i, attr := range profile.SubjectAttributes.Attributes {
+			oid, err := GetRdnAttributeOid(attr.Attribute)
 			if err != nil {
 				//do we have a custom oid?
-				oid, err := cert.OidFromString(currentAttribute)
+				oid, err = cert.OidFromString(attr.Attribute)
 				if err != nil {
 					logging.Warningf("profile violation: can't resolve %v to a known attribute OID",
-						currentAttribute)
+						attr.Attribute)
 					return false
 				}
-				wantAt = oid
 			}
+			want[i] = oid
+		}
 
-			if wantAt.Equal(subject[haveAttribute][0].Type) {
-				wantAttribute++
-				haveAttribute++
-			} else {
-				if profile.SubjectAttributes.AllowOther {
-					haveAttribute++
-				} else {
-					logging.Warningf("profile violation: expected %v at this position, but got %v and allowOther is false",
-						wantAt, subject[haveAttribute][0].Type)
+		//unless other attributes are allowed, the subject must list a subset of the
+		//profile's attributes in the profile's order
+		if !profile.SubjectAttributes.AllowOther {
+			wantAttribute := 0
+			for _, rdn := range subject {
+				for wantAttribute < len(want) && !want[wantAttribute].Equal(rdn[0].Type) {
+					wantAttribute++
+				}
+				if wantAttribute >= len(want) {
+					logging.Warningf("profile violation: attribute %v is not expected at this position and allowOther is false",
+						rdn[0].Type)
 					return false
 				}
+				wantAttribute++
 			}
 		}
 
-		if haveAttribute < len(content.Subject) && !profile.SubjectAttributes.AllowOther {
-			logging.Warningf("profile violation: provided number of attributes larger than specified in profile while allowOther is false")
-			return false
+		//every attribute that is not optional must be present
+		for i, attr := range profile.SubjectAttributes.Attributes {
+			if attr.Optional {
+				continue
+			}
+			found := false
+			for _, rdn := range subject {
+				if want[i].Equal(rdn[0].Type) {
+					found = true
+					break
+				}
+			}
+			if !found {
+				logging.Warningf("profile violation: required attribute %v is missing", want[i])
+				return false
+			}
 		}
 	}
 
